@@ -83,8 +83,8 @@ def ref(spec, row, V: Values, data=None, draw_index=None, ind=None, override=Non
         if kind == 'Times': return a * b
         if kind == 'Divide': return a / b
         if kind == 'Power': return pow_term(a, b)
-        if kind == 'bioMin': return z3.If(a < b, a, b)
-        if kind == 'bioMax': return z3.If(a > b, a, b)
+        if kind == 'bioMin': return z3.If(a <= b, a, b)
+        if kind == 'bioMax': return z3.If(a >= b, a, b)
         if kind == 'And': return b2r(z3.And(a != 0, b != 0))
         if kind == 'Or': return b2r(z3.Or(a != 0, b != 0))
         if kind == 'Equal': return b2r(a == b)
